@@ -894,7 +894,7 @@ impl Runner {
             }
 
             // 4. the oracle: a fresh state on the same tree
-            let mut fresh = fresh_outcome(&config, cwd);
+            let fresh = fresh_outcome(&config, cwd);
             *stats.fresh.entry(fresh.tag().to_string()).or_default() += 1;
             stats.comparisons += 1;
             let fp = fresh.fingerprint();
@@ -953,6 +953,16 @@ fn normalise_paths(s: &str, dir: &Path) -> String {
 fn same(watch: &Outcome, fresh: &Outcome) -> bool {
     match (watch, fresh) {
         (Outcome::Diags(_), Outcome::InitError(_)) => true,
+        (Outcome::Diags(a), Outcome::Diags(b)) => {
+            // With several definitions of one client field, which of them is validated (and
+            // therefore which further diagnostics appear) depends on HashMap iteration order,
+            // in a fresh compile as well. Then only the duplicate reports are compared.
+            let dups = |s: &BTreeSet<String>| -> BTreeSet<String> {
+                s.iter().filter(|d| d.starts_with("Multiple definitions of")).cloned().collect()
+            };
+            let (da, db) = (dups(a), dups(b));
+            if !da.is_empty() || !db.is_empty() { da == db } else { a == b }
+        }
         (a, b) => a == b,
     }
 }
@@ -1160,9 +1170,50 @@ fn op_signature(op: &Op, files_before: &BTreeSet<String>, is_dir: &dyn Fn(&str) 
     }
 }
 
+/// Causes that are recognised by what was observed rather than by the shape of the script.
+fn special_cause(case: &Case, fired: &Fired) -> Option<String> {
+    if fired.rule == "watcher-stops" {
+        let msg = fired.detail["errors"].to_string();
+        if msg.contains("Schema not found") {
+            return Some("schema-removed-or-replaced".into());
+        }
+        if msg.contains("convert file to utf8") {
+            return Some("non-utf8-source-file".into());
+        }
+        if msg.contains("convert to string") || msg.contains("canonicalize schema path") {
+            return Some("schema-or-extension-unreadable".into());
+        }
+        if msg.contains("traverse directory") || msg.contains("read file") {
+            return Some("path-vanished-before-read".into());
+        }
+        return None;
+    }
+    // an operation after which the inotify watch on the schema / extension file is gone
+    for step in &case.steps {
+        for op in &step.ops {
+            let lost = match op {
+                Op::AtomicReplace { path, .. } | Op::RemoveFile { path } => Some(path.as_str()),
+                Op::Rename { to, .. } => Some(to.as_str()),
+                _ => None,
+            };
+            if let Some(p) = lost {
+                match path_class(p, Some(false)) {
+                    "extension" => return Some("extension-removed-or-replaced".into()),
+                    "schema" => return Some("schema-removed-or-replaced".into()),
+                    _ => {}
+                }
+            }
+        }
+    }
+    None
+}
+
 /// Re-plays the shrunk script on the side (file names only) to describe each op
 /// relative to the tree it was applied to.
-fn cause_of(runner: &Runner, case: &Case) -> String {
+fn cause_of(runner: &Runner, case: &Case, fired: &Fired) -> String {
+    if let Some(c) = special_cause(case, fired) {
+        return c;
+    }
     let (dir, _config, _cwd, mut tree) = match runner.setup(case) {
         Ok(x) => x,
         Err(_) => return "setup-failed".to_string(),
@@ -1233,7 +1284,7 @@ pub fn main(input_path: &str) {
                 n_violations += 1;
                 let mut budget = if input.shrink { 400 } else { 0 };
                 let (small, small_fired) = shrink(&runner, case, &fired, &mut budget);
-                let cause = cause_of(&runner, &small);
+                let cause = cause_of(&runner, &small, &small_fired);
                 line["violation"] = json!({
                     "rule": small_fired.rule,
                     "cause": cause,
